@@ -1,0 +1,12 @@
+//go:build !verif
+
+package keys
+
+import (
+	"crypto/ecdsa"
+	"math/big"
+)
+
+func simSign(priv *ecdsa.PrivateKey, data []byte) (r, s *big.Int, ok bool) {
+	return nil, nil, false
+}
